@@ -116,6 +116,23 @@ def clean_all_case(pr):
     return None
 
 
+def clean_multipart_ext_case(pr):
+    pr.write("src/a.txt", "a")
+    body = "mkdir -p types && echo 1 > types/api.d.ts"
+    gen = {"input": [{"paths": ["src"]}], "output": [{"paths": ["types"], "extensions": ["d.ts"]}], "build": logging_build("gen", body=body)}
+    pr.write("zinoma.yml", yml({"gen": gen}))
+    pr.write("types/keyboard.ts", "hand-written")
+    pr.write("types/round.ts", "hand-written")
+    if pr.run("gen").rc != 0:
+        return None
+    for args in (["--clean"], ["--clean", "gen"]):
+        r = pr.run(*args)
+        for f in ("types/keyboard.ts", "types/round.ts"):
+            if not pr.exists(f):
+                return {"property": ["C12", "C15"], "expected": "`zinoma %s` with output extensions [d.ts] deletes only files ending with .d.ts: %s survives" % (" ".join(args), f), "observed": "%s was deleted" % f, "zinoma": r.brief()}
+    return None
+
+
 def no_clean_case(pr):
     _project(pr)
     if not _build_all(pr):
@@ -128,10 +145,11 @@ def no_clean_case(pr):
     return None
 
 
-def cases(seed):
+def cases(seed, tier="quick"):
     return [
         Case("clean", "clean-targets-frame", clean_targets_case, "--clean gen: only gen's and dep's outputs and state go; links not followed; other untouched and still skipped"),
         Case("clean", "clean-targets-deletes", clean_targets_deletes_case, "--clean gen: declared outputs are really gone before the re-run"),
         Case("clean", "clean-all", clean_all_case, "--clean alone: all outputs and state of all projects, nothing else, no script"),
+        Case("clean", "clean-multipart-ext", clean_multipart_ext_case, "multi-part extension without its dot in a filtered output"),
         Case("clean", "no-clean", no_clean_case, "without --clean nothing is deleted"),
     ]
